@@ -31,7 +31,7 @@ func init() {
 	})
 }
 
-var c10Bad = []string{"non-writer", "forged-sig-fails", "forged-identity", "forged-own-key", "forged-id-key-bad-sigs", "wrong-database", "wrong-hash", "wrong-hash-unrelated"}
+var c10Bad = []string{"non-writer", "forged-sig-fails", "forged-identity", "forged-own-key", "forged-id-key-bad-sigs", "forged-dangling-next", "wrong-database", "wrong-hash", "wrong-hash-unrelated"}
 var c10Place = []string{"same", "before", "after"}
 
 func c10Cases(tier string, seed int64) []fw.Case {
@@ -217,6 +217,14 @@ func c10Run(c fw.Case) fw.Verdict {
 			return A.Forge(fCopiedID, db.Addr, opPayload(typ, 50+i, "x"), vh, nil, maxT+1+i, victim)
 		case "forged-id-key-bad-sigs":
 			return A.Forge(fIDKeyBadSigs, db.Addr, opPayload(typ, 50+i, "x"), vh, nil, maxT+1+i, victim)
+		case "forged-dangling-next":
+			// passes the receiver's pre-check (copied identity block and key, all public) but its `next`
+			// names a block nobody holds: its fetch never completes
+			dangling, err := cid.Decode("bafyreiaqcgb4rd2doanu7r5e2nhmvu2jkm3wqrjhnt7uzig6pjhbx6lzhu")
+			if err != nil {
+				return nil, err
+			}
+			return A.Forge(fBlockVictimKey, db.Addr, opPayload(typ, 50+i, "x"), []cid.Cid{dangling}, nil, maxT+1+i, victim)
 		case "forged-own-key":
 			return A.Forge(fBlockOwnKey, db.Addr, opPayload(typ, 50+i, "x"), vh, nil, maxT+1+i, victim)
 		case "wrong-database":
@@ -274,7 +282,7 @@ func c10Run(c fw.Case) fw.Verdict {
 	case "before":
 		deliveredBad = send(bads)
 		if rng.Intn(2) == 0 {
-			e.W.Settle()
+			e.W.WaitIdle(sim.IdleOpts{BlockedOK: bad == "forged-dangling-next", IgnoreReplicators: bad == "forged-dangling-next"})
 		}
 		send(valid)
 	case "after":
@@ -284,7 +292,10 @@ func c10Run(c fw.Case) fw.Verdict {
 		}
 		deliveredBad = send(bads)
 	}
-	if !e.W.Settle() {
+	// a head naming a block nobody holds leaves one fetch waiting for ever: that is rest, not work in progress
+	dangling := bad == "forged-dangling-next"
+	idle := sim.IdleOpts{BlockedOK: dangling, IgnoreReplicators: dangling}
+	if !e.W.WaitIdle(idle) {
 		return fw.Verdict{Status: fw.Inconclusive, What: "rest not reached after announcements: " + fmt.Sprint(e.H.Detail())}
 	}
 	// honest re-announcement of the valid heads only
@@ -292,10 +303,10 @@ func c10Run(c fw.Case) fw.Verdict {
 	if fresh {
 		// the impersonated writer now writes for the first time: its genuine entries, announced honestly
 		// AFTER the forged head, must become visible too
-		e.W.Settle()
+		e.W.WaitIdle(idle)
 		sV := db.Stores[V3.Idx]
 		_ = sV.Sync(bg, cloneHeads(append(headsOf(sC), headsOf(sW)...)))
-		e.W.Settle()
+		e.W.WaitIdle(idle)
 		e.W.DropAll()
 		for i := 0; i < 2; i++ {
 			if _, err := ApplyOp(bg, sV, honestOp(typ, 900+i)); err != nil {
@@ -303,7 +314,7 @@ func c10Run(c fw.Case) fw.Verdict {
 					What: fmt.Sprintf("after a %s head naming an authorised writer was received, that writer's own genuine write is refused: %v", bad, err)}
 			}
 		}
-		e.W.Settle()
+		e.W.WaitIdle(idle)
 		e.W.DropAll()
 		var vheads []*entry.Entry
 		var vhs2 []string
@@ -328,7 +339,7 @@ func c10Run(c fw.Case) fw.Verdict {
 	deadline := time.Now().Add(20 * time.Second)
 	ok, missing := held()
 	for !ok && time.Now().Before(deadline) {
-		if e.W.WaitIdle(sim.IdleOpts{Watchdog: 5 * time.Second}) {
+		if e.W.WaitIdle(sim.IdleOpts{Watchdog: 5 * time.Second, BlockedOK: dangling, IgnoreReplicators: dangling}) {
 			ok, missing = held()
 			break
 		}
@@ -348,7 +359,7 @@ func c10Run(c fw.Case) fw.Verdict {
 	v.NonTrivial = deliveredBad && re && nrel >= 2
 	if !ok {
 		// negative verdict: confirm rest
-		if !e.W.WaitIdle(sim.IdleOpts{Stable: confirmWindow(), Watchdog: 60 * time.Second}) {
+		if !e.W.WaitIdle(sim.IdleOpts{Stable: confirmWindow(), Watchdog: 60 * time.Second, BlockedOK: dangling, IgnoreReplicators: dangling}) {
 			return fw.Verdict{Status: fw.Inconclusive, What: "rest not reached before negative verdict", Sig: v.Sig}
 		}
 		if ok, missing = held(); !ok {
